@@ -1,0 +1,79 @@
+//go:build verif
+
+package async
+
+// Contracts for govc, property C14: the runner queue (delegate and Proc requests; the reflective call variant
+// callCtxT uses package reflect and is outside the subset). Comments only; compiled only with the build tag `verif`.
+
+//@ arith int
+//@ property C14
+//@ assumption async runner: the callee of a request (user code) may use the runner's public API and anything else, but cannot write the unexported fields of the request contexts and of RunnerQ; the `wait` channel of a request context is never sent on (syntactic scan), only closed by run
+//
+//@ opaque dres(ctx context.Context) interface{}
+//@ opaque derr(ctx context.Context) error
+//@ ghost runs int
+//@ ghost curStop chan struct{}
+//
+//@ func funcval c.delegate
+//@   trusted user callback; its results are named by the opaque functions dres/derr (tags, used only to state whose result is stored)
+//@   ensures result0 == dres(ctx) && result1 == derr(ctx)
+//@   modifies Q.closed, list.List.lmem, list.List.lcnt, list.Element.lrk, list.Element.Value, region($alloc)
+//@ func Proc.Do
+//@   trusted user callback (interface)
+//@   ensures result0 == dres(ctx) && result1 == derr(ctx)
+//@   modifies Q.closed, list.List.lmem, list.List.lcnt, list.Element.lrk, list.Element.Value, region($alloc)
+//
+// run: executes the request at most once (closing the wait channel twice would panic), stores the request's OWN result,
+// and closes the wait channel on every path; a request whose context already ended is not executed
+//@ func delegateCtxT.run
+//@   requires c != nil && c.wait != nil && !chanclosed(c.wait) && c.delegate != nil
+//@   ensures #done chanclosed(c.wait)
+//@   ensures #own (c.result == dres(c.ctx) && c.err == derr(c.ctx)) || (c.err != nil && chanclosed(ctxdone(c.ctx)) && c.result == old(c.result))
+//@   modifies c.result, c.err, region($chanclosed), Q.closed, list.List.lmem, list.List.lcnt, list.Element.lrk, list.Element.Value, region($alloc)
+//@ func procCtxT.run
+//@   requires c != nil && c.wait != nil && !chanclosed(c.wait) && c.proc != nil
+//@   ensures #done chanclosed(c.wait)
+//@   ensures #own (c.result == dres(c.ctx) && c.err == derr(c.ctx)) || (c.err != nil && chanclosed(ctxdone(c.ctx)) && c.result == old(c.result))
+//@   modifies c.result, c.err, region($chanclosed), Q.closed, list.List.lmem, list.List.lcnt, list.Element.lrk, list.Element.Value, region($alloc)
+//
+// r: the caller gets its own context's error, or - once run has closed the wait channel - the stored result
+//@ func delegateCtxT.r
+//@   requires c != nil
+//@   ensures #routed (chanclosed(ctxdone(c.ctx)) && result0 == nil && result1 != nil) || (chanclosed(c.wait) && result0 == c.result && result1 == c.err)
+//@   modifies region($chanclosed)
+//@ func procCtxT.r
+//@   requires c != nil
+//@   ensures #routed (chanclosed(ctxdone(c.ctx)) && result0 == nil && result1 != nil) || (chanclosed(c.wait) && result0 == c.result && result1 == c.err)
+//@   modifies region($chanclosed)
+//
+//@ func newDelegateCtx
+//@   ensures result != nil && isfresh(result) && result.ctx == ctx && result.delegate == delegate && result.wait != nil && !chanclosed(result.wait) && result.result == nil && result.err == nil
+//@   modifies region($alloc), region($chanclosed)
+//@ func newProcCtx
+//@   ensures result != nil && isfresh(result) && result.ctx == ctx && result.proc == proc && result.wait != nil && !chanclosed(result.wait) && result.result == nil && result.err == nil
+//@   modifies region($alloc), region($chanclosed)
+//
+//@ pure rqwf(c *RunnerQ) bool = c != nil && c.q != nil && c.q.reqList != nil && !held(c.q.lock) && errsOK()
+//@ func RunnerQ.addDelegateCtx
+//@   requires rqwf(c)
+//@   ensures #request result0 != nil && isfresh(result0) && result0.ctx == ctx && result0.delegate == delegate && !chanclosed(result0.wait)
+//@   ensures #queued result1 == nil ==> forall e *list.Element :: { c.q.reqList.lmem[e] } c.q.reqList.lmem[e] ==> (cs(c.q.reqList.lmem[e]) || e.Value == any(result0))
+//@   modifies Q.closed, list.List.lmem, list.List.lcnt, list.Element.lrk, list.Element.Value, region($alloc), region($chanclosed)
+//@ func RunnerQ.addProcCtx
+//@   requires rqwf(c)
+//@   ensures #request result0 != nil && isfresh(result0) && result0.ctx == ctx && result0.proc == proc && !chanclosed(result0.wait)
+//@   ensures #queued result1 == nil ==> forall e *list.Element :: { c.q.reqList.lmem[e] } c.q.reqList.lmem[e] ==> (cs(c.q.reqList.lmem[e]) || e.Value == any(result0))
+//@   modifies Q.closed, list.List.lmem, list.List.lcnt, list.Element.lrk, list.Element.Value, region($alloc), region($chanclosed)
+//
+// the lane: every popped request is run exactly once, one at a time, in pop order; when the queue is closed and drained
+// the loop ends and the stop channel is closed
+//@ func ctxRunnerI.run
+//@   trusted interface dispatch to one of the run methods above (or the reflective one); the contract counts the call
+//@   ensures runs == old(runs) + 1 && chanclosed(curStop) == old(chanclosed(curStop))
+//@   modifies runs, region($chanclosed), Q.closed, list.List.lmem, list.List.lcnt, list.Element.lrk, list.Element.Value, region($alloc)
+//@ func RunnerQ.popLoop
+//@   requires rqwf(c) && c.stopChan != nil && !chanclosed(c.stopChan) && curStop == c.stopChan
+//@   ensures #stopped chanclosed(c.stopChan)
+//@   modifies everything()
+//@   loop 1
+//@     invariant rqwf(c) && c.stopChan != nil && !chanclosed(c.stopChan) && curStop == c.stopChan
